@@ -183,6 +183,9 @@ def build(ctx):
         lo = rng.choice([0.0, 0.1])
         jobs.append((seq, nb, lo, round(lo + nb * 0.1, 10), chk, crit, rng.randint(1, 2), rng.choice([-1, 1]), rng.randrange(10 ** 9),
                      os.path.join(ctx.work, 'wlt%d' % i)))
+    # one long first iteration: ln(DOS) of a bin passes 710, where exp() of it overflows a double (the rule itself only
+    # needs exp of the DIFFERENCE)
+    jobs.append(('EKEKAAKKEE', 2, 0.0, 1.0, 2000, rng.choice([0.1, 0.2]), 1, 1, rng.randrange(10 ** 9), os.path.join(ctx.work, 'wll0')))
     res = pmap(_run, jobs, chunk=1)
     cases = []
     ctx.direct_failures = []
